@@ -44,7 +44,7 @@ SPEC = dict(
           "project tree, number the entry returns); the binary is packed with the real CLIPacker.Pack and run with the real "
           "RunPackedBinary; compared: offset handed to the zip reader, outcome (exit callback with the entry's result / fall "
           "through / fail), files seen through the memory import locator byte-identical to the tree. Sweep: every n in "
-          "[0, 3*max(bufSize, b1+b2)+2|marker|+8] (geometry regenerated from pack.go) x 3 fillers; every proper prefix of the "
+          "[0, 3*max(bufSize, b1+b2)+2|marker|+8] (thorough: 6*) (geometry regenerated from pack.go) x 3 fillers; every proper prefix of the "
           "marker and every one-byte-changed marker at every alignment around 6 block boundaries x gaps to the real marker "
           "(0 = immediately followed); marker inside the binary; white-space after the marker; unpacked binaries; large random "
           "sizes; 6 project trees (nested dirs, empty file, all byte values, files containing the marker, 120 kB archive, 40 files). "
